@@ -116,6 +116,25 @@ class PathResult:
         self.stats = {}
 
 
+def propagate_literals(hyps, goal):
+    """Substitute hypotheses of the form b, Not(b), x == literal into the goal (cheap contextual simplification)."""
+    pairs = []
+    for h in hyps:
+        if z3.is_const(h) and h.decl().kind() == z3.Z3_OP_UNINTERPRETED and z3.is_bool(h):
+            pairs.append((h, z3.BoolVal(True)))
+        elif z3.is_not(h) and z3.is_const(h.arg(0)) and h.arg(0).decl().kind() == z3.Z3_OP_UNINTERPRETED:
+            pairs.append((h.arg(0), z3.BoolVal(False)))
+        elif z3.is_eq(h):
+            a, b = h.arg(0), h.arg(1)
+            for x, y in ((a, b), (b, a)):
+                if z3.is_const(x) and x.decl().kind() == z3.Z3_OP_UNINTERPRETED and (z3.is_int_value(y) or z3.is_string_value(y) or z3.is_true(y) or z3.is_false(y)):
+                    pairs.append((x, y))
+                    break
+    if not pairs:
+        return goal
+    return z3.simplify(z3.substitute(goal, *pairs))
+
+
 def _check_goal(it, goal, label, inputs, hyps=None):
     """Discharge one goal on the current path. Returns (status, detail)."""
     if isinstance(goal, bool):
@@ -124,6 +143,9 @@ def _check_goal(it, goal, label, inputs, hyps=None):
     if z3.is_true(goal):
         return "discharged", {"backend": "simplify"}
     facts = (list(it.facts) + list(it.pc)) if hyps is None else hyps
+    goal = propagate_literals(facts, goal)
+    if z3.is_true(goal):
+        return "discharged", {"backend": "simplify"}
     res = smt.prove(facts, goal, timeout_ms=it.solver_timeout_ms)
     it.solver_time += res["time"]
     it.solver_calls += 1
@@ -155,6 +177,10 @@ def run_path(c, decisions, contracts, world, cfg) -> PathResult:
             env.set(name, v)
             inputs[name] = v
             args.append(v)
+        for name, gt in c.ghosts:
+            v = make_value(it, gt, name)
+            env.set(name, v)
+            inputs[name] = v
         if c.setup is not None:
             c.setup(it, env)
         clauses.eval_lets(it, c.lets, env)
@@ -164,9 +190,11 @@ def run_path(c, decisions, contracts, world, cfg) -> PathResult:
         for k, v in env.vars.items():
             old_env.vars[k] = snapshot(v)
         old_fs = (it.fs_bin, it.fs_txt, it.fs_exists)
-        env.set("__old_env__", OldEnv(old_env))
+        env.set("__old_env__", OldEnv(old_env, old_fs))
         inputs = dict(old_env.vars)
         inputs.pop("__old_env__", None)
+        for pname, pv in getattr(it, "path_params", {}).items():
+            inputs[f"__fs__{pname}"] = VTuple([VBool(z3.Select(old_fs[2], pv.e)), VBytes(z3.Select(old_fs[0], pv.e)), VStr(z3.Select(old_fs[1], pv.e))])
         pr.inputs = inputs
         # vacuity: the precondition must be satisfiable
         if not decisions and it.check_sat() == "unsat":
@@ -209,7 +237,7 @@ def run_path(c, decisions, contracts, world, cfg) -> PathResult:
             clauses.eval_lets(it, c.post_lets, env)
             for cl in c.returns_:
                 try:
-                    goal = clauses.eval_clause(it, cl, env)
+                    goal = clauses.eval_clause(it, cl.via if getattr(cl, "via", None) is not None else cl, env)
                 except PyRaise as e:
                     pr.obligations.append((f"post:{cl.label}", "refuted", {"reason": f"clause not evaluable on this path: raised {e.exc.cls.__name__} (result shape differs from the contract)", "counterexample": _model_inputs(it, inputs), "no_model": False}))
                     continue
@@ -217,33 +245,32 @@ def run_path(c, decisions, contracts, world, cfg) -> PathResult:
                 pr.obligations.append((f"post:{cl.label}", st, det))
             pr.obligations.append(("raises", "discharged", {"backend": "executor"}))
         else:
-            allowed = None
-            for rs in c.raises_:
-                cls = clauses.resolve_exception(it, rs.exc)
-                if issubclass(exc, cls):
-                    allowed = rs
-                    break
-            if allowed is None:
+            matching = [rs for rs in c.raises_ if issubclass(exc, clauses.resolve_exception(it, rs.exc))]
+            if not matching:
                 # the path is feasible (every branch was checked) -> this exception escapes: ask for a model
                 st, det = _check_goal(it, z3.BoolVal(False), f"raises:{exc.__name__}", inputs)
                 det["escaping_exception"] = exc.__name__
                 pr.obligations.append(("raises", st, det))
             else:
                 pr.obligations.append(("raises", "discharged", {"backend": "executor"}))
-                if allowed.when is not None:
-                    # exception only when the stated condition held in the entry state
-                    goal = clauses.eval_clause(it, allowed.when, old_env_with(it, old_env))
-                    st, det = _check_goal(it, goal, f"raises-only-when:{allowed.label}", inputs)
-                    pr.obligations.append((f"raises-only-when:{allowed.label}", st, det))
-                for e in allowed.ensures:
-                    goal = clauses.eval_clause(it, e, env)
-                    st, det = _check_goal(it, goal, e.label, inputs)
-                    pr.obligations.append((f"raises-ensures:{e.label}", st, det))
+                oe = OldEnv(old_env, old_fs)
+                whens = []
+                for rs in matching:
+                    whens.append(z3.BoolVal(True) if rs.when is None else _eval_old(it, rs.when, old_env, old_fs))
+                if not any(z3.is_true(w) for w in whens):
+                    lab = "+".join(rs.label for rs in matching)
+                    st, det = _check_goal(it, z3.Or(*whens), f"raises-only-when:{lab}", inputs)
+                    pr.obligations.append((f"raises-only-when:{lab}", st, det))
+                for rs, w in zip(matching, whens):
+                    for e in rs.ensures:
+                        goal = z3.Implies(w, clauses.eval_clause(it, e, env))
+                        st, det = _check_goal(it, goal, e.label, inputs)
+                        pr.obligations.append((f"raises-ensures:{e.label}", st, det))
         if outcome == "return":
             for rs in c.raises_:
-                if rs.when is not None:
+                if rs.when is not None and rs.must:
                     # normal return only when the condition did NOT hold
-                    goal = z3.Not(clauses.eval_clause(it, rs.when, old_env_with(it, old_env)))
+                    goal = z3.Not(_eval_old(it, rs.when, old_env, old_fs))
                     st, det = _check_goal(it, goal, f"must-raise:{rs.label}", inputs)
                     pr.obligations.append((f"must-raise:{rs.label}", st, det))
         for label, fn in c.checks:
@@ -278,8 +305,13 @@ def _model_inputs(it, inputs):
     return None
 
 
-def old_env_with(it, old_env):
-    return old_env
+def _eval_old(it, clause, old_env, old_fs):
+    cur = (it.fs_bin, it.fs_txt, it.fs_exists)
+    it.fs_bin, it.fs_txt, it.fs_exists = old_fs
+    try:
+        return clauses.eval_clause(it, clause, old_env)
+    finally:
+        it.fs_bin, it.fs_txt, it.fs_exists = cur
 
 
 def verify_contract(c, contracts, cfg=None):
